@@ -745,3 +745,174 @@ def mapper_feed(kind, dup, expect, last, o, n):
         expect[o].extend([last[o]] * dup)
     expect[o].append(n)
     return False
+
+
+# --------------------------------------------------------------------------
+# the check
+# --------------------------------------------------------------------------
+
+def cfg_json(cfg):
+    return {"subject": list(cfg["subject"]), "via": cfg["via"], "mode": list(cfg["mode"]),
+            "cold": [list(n) for n in cfg.get("cold", [])]}
+
+
+def cfg_from_json(d):
+    return {"subject": tuple(d["subject"]), "via": d["via"], "mode": tuple(d["mode"]),
+            "cold": [tuple(n) for n in d.get("cold", [])]}
+
+
+def small_configs(tier):
+    S, B, R = ("subject",), ("behavior", 0), ("replay", 1, None)
+    out = [dict(subject=S, via="publish", mode=m, cold=[]) for m in
+           [("plain",), ("refcount",), ("share",), ("auto", 0), ("auto", 1), ("auto", 2), ("auto", 3)]]
+    out += [dict(subject=B, via="publish_value", mode=m, cold=[]) for m in [("plain",), ("refcount",), ("auto", 2)]]
+    out += [dict(subject=R, via="replay", mode=m, cold=[]) for m in [("plain",), ("refcount",), ("auto", 1)]]
+    out += [dict(subject=("async",), via="multicast", mode=("refcount",), cold=[]),
+            dict(subject=S, via="multicast", mode=("refcount",), cold=[("N", 2), ("C",)]),
+            dict(subject=S, via="publish", mode=("plain",), cold=[("N", 0)])]
+    if tier != "quick":
+        out += [dict(subject=("replay", 2, 1), via="replay", mode=("refcount",), cold=[("N", 2)]),
+                dict(subject=B, via="multicast", mode=("auto", 1), cold=[("N", 0), ("E", 11)]),
+                dict(subject=("async",), via="multicast", mode=("plain",), cold=[])]
+    return out
+
+
+def gen_cases(tier, rng):
+    a, b = 0, 2                     # pool ids of None and False
+    cases = []
+    scope = {}
+    L = 3 if tier == "quick" else 4
+    for cfg in small_configs(tier):
+        m = cfg["mode"][0]
+        if m == "plain":
+            alpha = [("sub", 0), ("sub", 1), ("unsub", 0), ("connect",), ("disc", 0), ("disc", 1), ("next", a), ("done",)]
+        elif m == "auto":
+            alpha = [("sub", 0), ("sub", 1), ("sub", 2), ("unsub", 0), ("unsub", 1), ("next", a), ("done",)]
+        else:
+            alpha = [("sub", 0), ("sub", 1), ("unsub", 0), ("unsub", 1), ("next", a), ("next", b), ("done",), ("err", 11)]
+        ll = L + 1 if m == "auto" else L
+        for h in subj.enum_flat(alpha, ll):
+            cases.append((cfg, h))
+    scope["exhaustive_flat"] = len(cases)
+    # re-entrant: observer 0 (or 1) reacts inside its first callback
+    reactions = [("unsub", 0), ("unsub", 1), ("sub", 2), ("connect",), ("disc", 0), ("next", b), ("done",)]
+    tail = [("next", a), ("done",), ("unsub", 1), ("sub", 3), ("connect",), ("disc", 0)]
+    for cfg in small_configs("quick")[:13]:
+        for h in subj.enum_reentrant([("sub", 0), ("sub", 1)], tail, reactions, 2 if tier == "quick" else 3):
+            cases.append((cfg, h))
+    scope["exhaustive_reentrant"] = len(cases) - scope["exhaustive_flat"]
+    nrand = 1500 if tier == "quick" else 25000
+    for _ in range(nrand):
+        cfg = gen_config(rng)
+        cases.append((cfg, gen_history(rng, cfg)))
+    scope["random"] = nrand
+    nmap = 400 if tier == "quick" else 5000
+    for _ in range(nmap):
+        cfg = gen_config(rng, mapper=True)
+        if cfg["mode"][1] == "merge2":
+            cfg["cold"] = []          # merge subscribes its inner sources through the trampoline (after connect)
+        cases.append((cfg, gen_history(rng, cfg, flat=True)))
+    scope["random_mapper_form"] = nmap
+    scope["flat_len"] = L
+    return cases, scope
+
+
+def nontrivial(rec):
+    return (sum(1 for r in rec if r["t"] == "ssub") >= 1 and sum(1 for r in rec if r["t"] == "got") >= 2)
+
+
+def run_check(chk):
+    pid = "C24"
+    proved = chk.build_and_prove()
+    tier = chk.tier if proved and not chk.broken else "thorough"
+    if tier != chk.tier:
+        chk.cov["search"] = "theorem file or build broke: case set enlarged to the thorough scope"
+    cases, scope = gen_cases(tier, chk.rng)
+    gal, idx, H, nt = [], [], {"mode": {}, "subject": {}, "reentrant": 0, "cold": 0, "falsy_values": 0,
+                               "reconnect": 0, "late_subscriber_after_end": 0}, set()
+    for ci, (cfg, h) in enumerate(cases):
+        rec = run_case(cfg, h)
+        chk.cov["evaluations"] += 1
+        H["mode"][cfg["mode"][0]] = H["mode"].get(cfg["mode"][0], 0) + 1
+        H["subject"][cfg["subject"][0]] = H["subject"].get(cfg["subject"][0], 0) + 1
+        H["reentrant"] += 1 if h[1] else 0
+        H["cold"] += 1 if cfg.get("cold") else 0
+        H["falsy_values"] += 1 if any(r["t"] == "got" and r["n"][0] == "N" and r["n"][1] < 6 for r in rec) else 0
+        H["reconnect"] += 1 if sum(1 for r in rec if r["t"] == "ssub") >= 2 else 0
+        if nontrivial(rec):
+            nt.add(repr((cfg_json(cfg), subj.hist_key(h))))
+        for sig, detail in oracle(cfg, h, rec):
+            def still(hh, _sig=sig):
+                return any(s == _sig for s, _ in oracle(cfg, hh, run_case(cfg, hh)))
+            hm = subj.shrink(h, still)
+            r2 = run_case(cfg, hm)
+            d2 = [d for s, d in oracle(cfg, hm, r2) if s == sig][0]
+            chk.violation(sig, {"config": cfg_json(cfg), "history": subj.hist_json(hm),
+                                "pool": [repr(v) for v in POOL.values], "implementation_log": g_xlog(r2),
+                                "oracle": d2, "expected": "see harness/conn.py: Expect / oracle docstrings"},
+                          size=subj.hist_size(hm))
+        if cfg["mode"][0] != "mapper":
+            gal.append((f"({g_config(cfg)}, {g_hist(h)})", f"({g_xlog(rec)}, true)"))
+            idx.append(ci)
+    bad, logs = subj.correspond(pid, "k1", IMPORTS, CASE_TY, gal, PRELUDE)
+    chk.cov["traces_validated_against_impl"] = len(gal)
+    chk.cov["disagreements_checked"] = len(gal)
+    if bad:
+        firsts = [i for i in bad if i >= 0][:3]
+        detail = {"n_disagreements": len(bad), "logs": logs[:1],
+                  "first (config, history) / implementation log": [gal[i] for i in firsts]}
+        if firsts:
+            detail["model_says"] = lib.coq_show(pid, IMPORTS, f"model {gal[firsts[0]][0]}", PRELUDE)
+            detail["config"] = cfg_json(cases[idx[firsts[0]]][0])
+            detail["history"] = subj.hist_json(cases[idx[firsts[0]]][1])
+        chk.tie_broken("correspondence K1/K2: Subjects/Connectable.v vs ConnectableObservable / ref_count / "
+                       "auto_connect / publish / publish_value / replay / multicast", detail)
+    chk.cov["distinct_nontrivial"] = len(nt)
+    chk.cov["exhaustive"] = True
+    chk.cov["rule"] = (f"exhaustive: all histories of top-level calls of length <= {scope['flat_len']} "
+                       "(auto_connect: +1) over 7-8 operations (2-3 subscribers, connect, dispose of the 1st/2nd "
+                       "connection handle, values None/False, completion, error) for 16 configurations (publish x "
+                       "plain/ref_count/share/auto_connect(0..3); publish_value and replay(1) x plain/ref_count/"
+                       "auto_connect; AsyncSubject; cold prefixes); exhaustive one-reaction re-entrant trees "
+                       "(sub0 sub1 ++ tails, subscriber 0/1 reacting in its first callback); seeded random trees "
+                       "over random configurations (all subject kinds, replay buffer 0-3 / window 0-5 ticks with "
+                       "clock advances, cold prefixes with/without terminal, manual connect next to ref_count); "
+                       "random histories for the subject_factory + mapper form (oracle only).  non-trivial = "
+                       "distinct (configuration, history) with at least one source subscription and two deliveries")
+    chk.cov["input_distribution"] = dict(H, **{k: v for k, v in scope.items() if isinstance(v, int)})
+    step = max(1, len(cases) // 5)
+    chk.add_samples([{"config": cfg_json(c), "history": subj.hist_json(h)} for (c, h) in cases[step - 1::step]])
+    return chk.finish(
+        trusted_extra=["K1/K2 driver harness/conn.py (hand-driven source logging its subscribe/unsubscribe instants, "
+                       "logging subscribers, try/except around every call); replay flavours on a real "
+                       "VirtualTimeScheduler drained after every top-level call",
+                       "the subject engines Subjects/Subject.v and Subjects/Replay.v (C20-C23) are reused, stepped one "
+                       "instruction at a time; the AutoDetachObserver wrappers of all layers are collapsed into the "
+                       "engine's wrapper, covered by the same correspondence"],
+        assumptions=["single thread; subscriber callbacks do not raise",
+                     "the source is passive: it emits only when the history says so (plus a cold prefix inside "
+                     "subscribe()) and never refuses a subscription",
+                     "ref_count / auto_connect edge theorems and the per-subscriber view theorem are for histories of "
+                     "top-level calls (no call-backs into the operators from inside a notification) without manual "
+                     "connect() next to ref_count / auto_connect; the connection theorems (one source subscription at "
+                     "a time, none while disconnected) hold for arbitrary call trees",
+                     "subject_factory + mapper form: checked by the oracle on the implementation (identity mapper and "
+                     "a mapper using the connectable twice), not modelled in Coq",
+                     "fewer than 100 scheduler actions per drain (replay flavours)"])
+
+
+def replay_check(chk, path):
+    import json
+    d = json.load(open(path))
+    if "history" not in d:
+        print(json.dumps(d, indent=1))
+        return 1
+    cfg, h = cfg_from_json(d["config"]), subj.hist_from_json(d["history"])
+    rec = run_case(cfg, h)
+    bad = oracle(cfg, h, rec)
+    print("config", cfg)
+    print("history", h)
+    print("implementation log", g_xlog(rec))
+    for s, dd in bad:
+        print("ORACLE FAILS", s, dd)
+    return 1 if bad else 0
